@@ -8,6 +8,10 @@ package main
 //   * without faults,
 //   * with every single operation of the observed trace failing (plus "write to the temp file fails"),
 //   * killed (shim "freeze") before every mutating operation, with and without a preceding fault,
+//   * with an ORPHAN sidecar (a <name>.zoekt.meta without <name>.zoekt, as a kill between the two removals of
+//     IndexFilePaths leaves it) waiting at a destination name of Explode / merge: real JSON of the repository
+//     metadata (tombstoned / other priority), garbage, or a directory; and with a sidecar under an existing
+//     shard at a destination name ("shadowed-dst"),
 // observes the result and the directory (which *.zoekt / *.meta exist, what index.ReadMetadataPath says),
 // emits each run as a Coq case for Model/MergeDriver.v and evaluates the property itself (no repo alive in
 // two shards; nil error only if merged / exploded) directly on the directory.
@@ -93,15 +97,25 @@ func c35MetaCoq(ms []c35Meta) string {
 
 // ---- scenario description
 
+// a .meta file the scenario puts into the directory (besides the ones index.SetTombstone writes for compounds)
+type c35Sidecar struct {
+	z     c35Z
+	kind  string // "json" (real JSON of the repository metadata) | "garbage" | "dir"
+	metas []c35Meta
+}
+
 type c35Scenario struct {
-	mode      int // 0 merge, 1 explode
-	simples   []c35Meta
-	compounds [][]c35Meta // in the order given (the harness sorts by priority as Merge does)
-	garbage   []c35Z      // *.zoekt files with garbage content
-	dirs      []string    // "z:<i>" PZ, "t:<i>" PTmp of names[i]/..., resolved below
-	dirPaths  []c35Path
-	names     []c35Z
-	label     []string
+	sidecars   []c35Sidecar
+	orphanPick int
+	orphanDst  string // merge: "" | "tomb" | "prio" | "garbage" | "dir": orphan sidecar at the destination, resolved by a dry run
+	mode       int    // 0 merge, 1 explode
+	simples    []c35Meta
+	compounds  [][]c35Meta // in the order given (the harness sorts by priority as Merge does)
+	garbage    []c35Z      // *.zoekt files with garbage content
+	dirs       []string    // "z:<i>" PZ, "t:<i>" PTmp of names[i]/..., resolved below
+	dirPaths   []c35Path
+	names      []c35Z
+	label      []string
 }
 
 type c35Path struct {
@@ -143,6 +157,62 @@ func c35SimpleBytes(t *testing.T, m c35Meta) []byte {
 	}
 	c35Cache[k] = data
 	return data
+}
+
+// the repository metadata as stored in the real simple shard of m, with the tombstone flag and priority of m
+func c35RepoOf(t *testing.T, shard, m c35Meta) *zoekt.Repository {
+	dir := t.TempDir()
+	p := filepath.Join(dir, c35Simple(shard.id).file())
+	if err := os.WriteFile(p, c35SimpleBytes(t, shard), 0o644); err != nil {
+		t.Fatal(err)
+	}
+	rs, _, err := index.ReadMetadataPath(p)
+	if err != nil || len(rs) != 1 {
+		t.Fatalf("harness: metadata of simple shard: %v", err)
+	}
+	r := rs[0]
+	r.Tombstone = m.tomb
+	if r.RawConfig == nil {
+		r.RawConfig = map[string]string{}
+	}
+	r.RawConfig["priority"] = strconv.Itoa(m.prio)
+	return r
+}
+
+// the bytes of a sidecar as the tools write them: one JSON object for a simple (v16) shard (Builder.Finish),
+// a JSON array for a compound (v17) shard (index.SetTombstone / JsonMarshalRepoMetaTemp)
+func c35SidecarJSON(t *testing.T, sc *c35Scenario, sd c35Sidecar) []byte {
+	shardOf := func(id int) c35Meta {
+		for _, m := range sc.simples {
+			if m.id == id {
+				return c35Meta{m.id, m.prio, false}
+			}
+		}
+		for _, ms := range sc.compounds {
+			for _, m := range ms {
+				if m.id == id {
+					return c35Meta{m.id, m.prio, false}
+				}
+			}
+		}
+		t.Fatalf("harness: sidecar for unknown repo %d", id)
+		return c35Meta{}
+	}
+	var v any
+	if sd.z.kind == 0 {
+		v = c35RepoOf(t, shardOf(sd.metas[0].id), sd.metas[0])
+	} else {
+		var rs []*zoekt.Repository
+		for _, m := range sd.metas {
+			rs = append(rs, c35RepoOf(t, shardOf(m.id), m))
+		}
+		v = rs
+	}
+	b, err := json.Marshal(v)
+	if err != nil {
+		t.Fatal(err)
+	}
+	return b
 }
 
 // returns (file name, bytes) of the compound made by the real merge from fresh simple shards
@@ -245,6 +315,30 @@ func c35Setup(t *testing.T, dir string, sc *c35Scenario) *c35Init {
 			t.Fatal(err)
 		}
 		in.coq = append(in.coq, cPair(p.coq(), "Dir"))
+	}
+	for _, sd := range sc.sidecars {
+		add(sd.z)
+		p := filepath.Join(dir, sd.z.file()+".meta")
+		switch sd.kind {
+		case "json":
+			if err := os.WriteFile(p, c35SidecarJSON(t, sc, sd), 0o644); err != nil {
+				t.Fatal(err)
+			}
+			in.coq = append(in.coq, cPair(c35Path{1, sd.z}.coq(), "(File (CMeta "+c35MetaCoq(sd.metas)+"))"))
+		case "garbage":
+			if err := os.WriteFile(p, []byte("{garbage"), 0o644); err != nil {
+				t.Fatal(err)
+			}
+			in.coq = append(in.coq, cPair(c35Path{1, sd.z}.coq(), "(File CGarbage)"))
+		default:
+			if err := os.MkdirAll(p, 0o755); err != nil {
+				t.Fatal(err)
+			}
+			if err := os.WriteFile(filepath.Join(p, "keep"), []byte("x"), 0o644); err != nil {
+				t.Fatal(err)
+			}
+			in.coq = append(in.coq, cPair(c35Path{1, sd.z}.coq(), "Dir"))
+		}
 	}
 	for _, z := range sc.names {
 		add(z)
@@ -473,7 +567,8 @@ type c35Run struct {
 	raw     []zzfs.Op
 	obs     []c35Obs
 	in      *c35Init
-	order   []c35Z
+	order   []c35Z // Explode: observed map order of the rename loop
+	orderSt []c35Z // Explode: observed map order of the loop removing stale sidecars at the destination names
 }
 
 func c35Exec(t *testing.T, sc *c35Scenario, fault *c35Fault, kill *c35Fault) *c35Run {
@@ -521,13 +616,12 @@ func c35Exec(t *testing.T, sc *c35Scenario, fault *c35Fault, kill *c35Fault) *c3
 	r.raw = zzfs.Log()
 	zzfs.Reset(zzfs.Plan{})
 	r.obs = c35Observe(t, dir, in)
-	seen := map[string]bool{}
+	seen, seenSt := map[string]bool{}, map[string]bool{}
 	for _, o := range r.raw {
-		if o.Result == "skipped" || o.Result == "killed" {
+		if o.Result == "skipped" {
 			continue
 		}
-		m := c35MapOp(t, in, o)
-		r.ops = append(r.ops, m)
+		// the map orders include the operation the run was killed at (it is the next one in that run's order)
 		if sc.mode == 1 && o.Kind == "Rename" {
 			p := c35PathOf(t, in, o.Args[1])
 			if p.kind == 0 && !seen[p.z.file()] {
@@ -535,6 +629,17 @@ func c35Exec(t *testing.T, sc *c35Scenario, fault *c35Fault, kill *c35Fault) *c3
 				r.order = append(r.order, p.z)
 			}
 		}
+		if sc.mode == 1 && o.Kind == "Remove" {
+			p := c35PathOf(t, in, o.Args[0])
+			if p.kind == 1 && p.z.file() != sc.names[0].file() && !seenSt[p.z.file()] {
+				seenSt[p.z.file()] = true
+				r.orderSt = append(r.orderSt, p.z)
+			}
+		}
+		if o.Result == "killed" {
+			continue
+		}
+		r.ops = append(r.ops, c35MapOp(t, in, o))
 	}
 	if kill != nil {
 		r.code = 3
@@ -574,6 +679,10 @@ func c35Emit(t *testing.T, sc *c35Scenario, fault, kill *c35Fault, r *c35Run, in
 	for i, z := range r.order {
 		order[i] = z.coq()
 	}
+	orderSt := make([]string, len(r.orderSt))
+	for i, z := range r.orderSt {
+		orderSt[i] = z.coq()
+	}
 	dst := "None"
 	if r.dst != "" {
 		dst = cSome(c35ZOf(t, r.in, r.dst).coq())
@@ -584,7 +693,7 @@ func c35Emit(t *testing.T, sc *c35Scenario, fault, kill *c35Fault, r *c35Run, in
 		}
 		return cList(xs)
 	}
-	term := cTuple(cN(uint64(sc.mode)), lst(r.in.coq, "(path * node)"), lst(names, "zname"), faults, killC, lst(order, "zname"),
+	term := cTuple(cN(uint64(sc.mode)), lst(r.in.coq, "(path * node)"), lst(names, "zname"), faults, killC, lst(order, "zname"), lst(orderSt, "zname"),
 		cN(uint64(r.code)), dst, c35ObsCoq(r.obs))
 	var tr []string
 	for _, o := range r.raw {
@@ -602,9 +711,21 @@ func c35Emit(t *testing.T, sc *c35Scenario, fault, kill *c35Fault, r *c35Run, in
 	replay := map[string]any{"scenario": desc, "initial_alive": fmt.Sprint(initial), "final_alive": fmt.Sprint(c35Alive(r.obs)),
 		"how": "props/C35/NOTES.md (replay): build the listed shards, apply the fault through the zzfs plan, run merge/Explode"}
 	alive := c35Alive(r.obs)
+	// scenarios with an orphan sidecar at a destination name get keys of their own
+	orphan := false
+	for _, l := range sc.label {
+		orphan = orphan || l == "orphan-sidecar"
+	}
 	for id, files := range alive {
 		if len(files) > 1 {
-			vfOracleFail("duplicate-visibility:"+strings.Join(classes[len(classes)-1:], ","), fmt.Sprintf("repo r%d alive in %v", id, files), replay)
+			k := strings.Join(classes[len(classes)-1:], ",")
+			if orphan {
+				k = "orphan-sidecar"
+				if fault != nil || kill != nil {
+					k += "+" + strings.Join(classes[len(classes)-1:], ",")
+				}
+			}
+			vfOracleFail("duplicate-visibility:"+k, fmt.Sprintf("repo r%d alive in %v", id, files), replay)
 		}
 	}
 	if kill == nil && r.code != 2 {
@@ -614,6 +735,13 @@ func c35Emit(t *testing.T, sc *c35Scenario, fault, kill *c35Fault, r *c35Run, in
 		}
 		if fault == nil && len(sc.label) > 1 {
 			cause += ";" + sc.label[len(sc.label)-1]
+		}
+		if orphan {
+			if fault == nil {
+				cause = "orphan-sidecar"
+			} else {
+				cause = "orphan-sidecar+" + cause
+			}
 		}
 		if sc.mode == 0 {
 			bad := ""
@@ -662,8 +790,16 @@ func c35Emit(t *testing.T, sc *c35Scenario, fault, kill *c35Fault, r *c35Run, in
 
 // ---- scenario generator
 
-func c35Gen(r *vfRand) *c35Scenario {
+// force: "" = random; "merge:<variant>" / "explode:<variant>" = a plain scenario of that mode with an orphan
+// sidecar of that variant (tomb|prio|garbage|dir) at a destination name; "explode:shadowed" = destination taken by
+// a shard with a sidecar.  Every run of the check starts with these so that the class is always covered.
+func c35Gen(r *vfRand, force string) *c35Scenario {
 	sc := &c35Scenario{mode: r.Intn(2)}
+	variant := ""
+	if i := strings.Index(force, ":"); i >= 0 {
+		sc.mode = map[string]int{"merge": 0, "explode": 1}[force[:i]]
+		variant = force[i+1:]
+	}
 	perm := []int{1, 2, 3, 4, 5, 6, 7}
 	for i := len(perm) - 1; i > 0; i-- {
 		j := r.Intn(i + 1)
@@ -704,7 +840,11 @@ func c35Gen(r *vfRand) *c35Scenario {
 		if len(sc.names) > 1 && r.Bool() {
 			sc.names[0], sc.names[len(sc.names)-1] = sc.names[len(sc.names)-1], sc.names[0]
 		}
-		switch r.Intn(10) {
+		defect := r.Intn(10)
+		if force != "" {
+			defect = 9
+		}
+		switch defect {
 		case 0:
 			sc.names = append(sc.names, c35Other(1))
 			sc.label = append(sc.label, "missing-input")
@@ -723,6 +863,16 @@ func c35Gen(r *vfRand) *c35Scenario {
 			// a directory squatting on the destination name or its .tmp name
 			sc.label = append(sc.label, "dst-obstacle")
 			sc.dirs = append(sc.dirs, []string{"z", "t"}[r.Intn(2)])
+		}
+		if r.Chance(30) || force != "" {
+			// an orphan sidecar waits at the destination name (left by a run killed between removing an earlier
+			// compound of the same repositories and removing its .meta); resolved once the destination is known
+			sc.orphanDst = []string{"tomb", "tomb", "tomb", "tomb", "prio", "prio", "garbage", "garbage", "dir", "dir"}[r.Intn(10)]
+			if variant != "" {
+				sc.orphanDst = variant
+			}
+			sc.orphanPick = r.Intn(1000)
+			sc.label = append(sc.label, "orphan:"+sc.orphanDst, "orphan-sidecar")
 		}
 	} else {
 		k := 1 + r.Intn(3)
@@ -744,7 +894,11 @@ func c35Gen(r *vfRand) *c35Scenario {
 		}
 		sc.names = []c35Z{c35Compound(ids)}
 		sc.label = []string{lab}
-		switch r.Intn(10) {
+		defect := r.Intn(10)
+		if force != "" {
+			defect = 9
+		}
+		switch defect {
 		case 0:
 			sc.compounds = nil
 			sc.names = []c35Z{c35Other(1)}
@@ -760,21 +914,102 @@ func c35Gen(r *vfRand) *c35Scenario {
 			sc.dirPaths = append(sc.dirPaths, c35Path{[]int{0, 2}[r.Intn(2)], c35Simple(m.id)})
 			sc.label = append(sc.label, "simple-obstacle")
 		}
+		if len(sc.compounds) == 1 {
+			v := r.Intn(20)
+			if variant == "shadowed" {
+				v = 8
+			} else if variant != "" {
+				v = 0
+			}
+			switch {
+			case v < 7:
+				// an orphan sidecar waits at the name of a simple shard Explode is going to write (or, for a
+				// tombstoned member, is not going to write)
+				m := ms[r.Intn(k)]
+				if force != "" {
+					for _, x := range ms {
+						if !x.tomb {
+							m = x
+						}
+					}
+				}
+				sd := c35Sidecar{z: c35Simple(m.id)}
+				w := r.Intn(10)
+				if variant != "" {
+					w = map[string]int{"tomb": 0, "prio": 4, "garbage": 6, "dir": 8}[variant]
+				}
+				switch {
+				case w < 4:
+					sd.kind, sd.metas = "json", []c35Meta{{m.id, m.prio, true}}
+					sc.label = append(sc.label, "orphan:tomb")
+				case w < 6:
+					sd.kind, sd.metas = "json", []c35Meta{{m.id, m.prio + 5, false}}
+					sc.label = append(sc.label, "orphan:prio")
+				case w < 8:
+					sd.kind = "garbage"
+					sc.label = append(sc.label, "orphan:garbage")
+				default:
+					sd.kind = "dir"
+					sc.label = append(sc.label, "orphan:dir")
+				}
+				sc.sidecars = append(sc.sidecars, sd)
+				sc.label = append(sc.label, "orphan-sidecar")
+			case v < 9 && len(sc.label) == 1:
+				// a simple shard of a repository that is alive in the compound already exists, tombstoned by its
+				// own sidecar: the destination name is taken by a shard WITH a sidecar
+				var live []c35Meta
+				for _, m := range ms {
+					if !m.tomb {
+						live = append(live, m)
+					}
+				}
+				if len(live) > 0 {
+					m := live[r.Intn(len(live))]
+					sc.simples = append(sc.simples, c35Meta{m.id, m.prio, false})
+					sc.sidecars = append(sc.sidecars, c35Sidecar{z: c35Simple(m.id), kind: "json", metas: []c35Meta{{m.id, m.prio, true}}})
+					sc.label = append(sc.label, "shadowed-dst")
+				}
+			}
+		}
+	}
+	// a repository tombstoned in a compound usually lives on in a newer simple shard (that is why the indexer
+	// tombstoned it): put that shard beside the compound, as a bystander
+	special := false
+	for _, l := range sc.label {
+		special = special || strings.HasPrefix(l, "orphan") || l == "shadowed-dst" || l == "simple-obstacle"
+	}
+	if !special && r.Chance(50) {
+		for _, ms := range sc.compounds {
+			for _, m := range ms {
+				if m.tomb {
+					sc.simples = append(sc.simples, c35Meta{m.id, m.prio, false})
+					sc.label = append(sc.label, "tombstoned-reindexed")
+				}
+			}
+		}
 	}
 	return sc
 }
 
 // resolve "dst obstacle" once the destination is known (from a fault-free dry run without the obstacle)
 func c35ResolveObstacles(t *testing.T, sc *c35Scenario) {
-	if len(sc.dirs) == 0 {
+	if len(sc.dirs) == 0 && sc.orphanDst == "" {
 		return
 	}
 	probe := *sc
 	probe.dirs = nil
+	probe.orphanDst = ""
 	r := c35Exec(t, &probe, nil, nil)
 	if r.code != 1 {
 		sc.dirs = nil
-		sc.label = sc.label[:len(sc.label)-1]
+		sc.orphanDst = ""
+		var keep []string
+		for _, l := range sc.label {
+			if l != "dst-obstacle" && !strings.HasPrefix(l, "orphan") {
+				keep = append(keep, l)
+			}
+		}
+		sc.label = keep
 		return
 	}
 	z := c35ZOf(t, r.in, r.dst)
@@ -783,14 +1018,47 @@ func c35ResolveObstacles(t *testing.T, sc *c35Scenario) {
 		sc.dirPaths = append(sc.dirPaths, c35Path{map[string]int{"z": 0, "t": 2}[d], z})
 	}
 	sc.dirs = nil
+	if sc.orphanDst != "" {
+		prio := map[int]int{}
+		for _, m := range sc.simples {
+			prio[m.id] = m.prio
+		}
+		for _, ms := range sc.compounds {
+			for _, m := range ms {
+				prio[m.id] = m.prio
+			}
+		}
+		sd := c35Sidecar{z: z, kind: "json"}
+		for _, id := range z.l {
+			sd.metas = append(sd.metas, c35Meta{id, prio[id], false})
+		}
+		switch sc.orphanDst {
+		case "tomb":
+			sd.metas[sc.orphanPick%len(sd.metas)].tomb = true
+		case "prio":
+			sd.metas[sc.orphanPick%len(sd.metas)].prio += 5
+		default:
+			sd.kind, sd.metas = sc.orphanDst, nil
+		}
+		sc.sidecars = append(sc.sidecars, sd)
+		sc.orphanDst = ""
+	}
 }
 
 func TestVerifC35(t *testing.T) {
 	r := vfNewRand(vfSeed())
 	budget := vfN(400)
 	emitted := 0
-	for emitted < budget {
-		sc := c35Gen(r)
+	forced := []string{"explode:tomb", "merge:tomb", "explode:shadowed", "merge:dir"}
+	if vfTier() == "thorough" {
+		forced = append(forced, "explode:dir", "merge:garbage", "merge:prio", "explode:garbage", "explode:prio")
+	}
+	for round := 0; emitted < budget; round++ {
+		force := ""
+		if round < len(forced) {
+			force = forced[round]
+		}
+		sc := c35Gen(r, force)
 		c35ResolveObstacles(t, sc)
 		base := c35Exec(t, sc, nil, nil)
 		// the destination of a merge: remember its abstract name for runs in which only <dst>.tmp shows up
@@ -818,6 +1086,9 @@ func TestVerifC35(t *testing.T) {
 			if strings.HasPrefix(o.coq, "(OCreateTemp") {
 				faults = append(faults, &c35Fault{op: o, occ: c35Occ(base.ops, i), mode: "badwrite"})
 			}
+		}
+		if force != "" && vfTier() != "thorough" {
+			faults = nil // the forced scenarios: fault-free run + every kill point; faults come with the random ones
 		}
 		// kills without fault
 		for i, o := range base.ops {
